@@ -137,8 +137,8 @@ let verdict case impl =
       List.iteri (fun i tok ->
           match String.split_on_char '.' tok with
           | [kind; e; o] ->
-            if o = "m" then (if !diff = "" then diff := Printf.sprintf "request %d (%s): no frame seen" i kind)
-            else if o = "d" then (if !diff = "" then diff := Printf.sprintf "request %d (%s): more than one frame" i kind)
+            if o = "missing" then (if !diff = "" then diff := Printf.sprintf "request %d (%s): no frame seen" i kind)
+            else if o = "dup" then (if !diff = "" then diff := Printf.sprintf "request %d (%s): more than one frame" i kind)
             else begin
               let explicit = opt e and observed = opt o in
               (* the generator's value is only visible through the frame itself *)
